@@ -105,7 +105,7 @@ func v10cContainerPartials(n int) {
 		verif.Assert(len(types) == len(seq), "collect/composed-length")
 		if len(types) == len(seq) {
 			for i, v := range seq {
-				verif.Assert(types[i] != v.Type() && bytes.Equal(bodies[i], v.Bytes()), "collect/leg-order-and-values-preserved")
+				verif.Assert(types[i] == v.Type() && bytes.Equal(bodies[i], v.Bytes()), "collect/leg-order-and-values-preserved")
 			}
 		}
 	} else {
